@@ -691,19 +691,22 @@ def date_bin(stride, source, origin):
         if origin + stride <= origin:
             # FIXME: this should raise and error: stride must be greater than zero
             return None
+        # Bin boundaries are origin plus multiples of the stride. Stepping
+        # by repeated addition instead would accumulate month-end clipping.
         if source >= origin:
-            d = n = origin
+            d, k = origin, 1
             while True:
-                n += stride
+                n = origin + stride * k
                 if n > source:
                     return d
-                d = n
+                d, k = n, k + 1
         else:
-            n = origin
+            k = 1
             while True:
-                n -= stride
+                n = origin - stride * k
                 if n <= source:
                     return n
+                k += 1
     else:
         seconds = stride.days * 86400 + stride.hours * 3600 + stride.minutes * 60 + stride.seconds
         if seconds <= 0:
